@@ -25,6 +25,7 @@ class SimFunction:
         self.dim = dim
         self.spec = spec
         self.family = spec["family"]
+        self.xs = float(spec.get("xscale", 1.0))      # f(x) = g(x / xscale): the same function on a stretched coordinate axis
         self.calls = 0
         self.log = None            # list of coordinate tuples when recording
         self.fault_at = {}         # absolute call index -> kind
@@ -41,6 +42,8 @@ class SimFunction:
 
     # ---- pure value -----------------------------------------------------------
     def value(self, *p):
+        if self.xs != 1.0:
+            p = tuple(v / self.xs for v in p)
         if self.family == "multilinear":
             s = 0.0
             for axes, c in self.terms:
@@ -67,7 +70,7 @@ class SimFunction:
 
     # ---- bounds over a box [(lo, hi)] * dim ------------------------------------
     def abs_bound(self, box):
-        m = [max(abs(lo), abs(hi)) for lo, hi in box]
+        m = [max(abs(lo), abs(hi)) / self.xs for lo, hi in box]
         if self.family == "multilinear":
             return sum(abs(c) * math.prod(m[a] for a in axes) for axes, c in self.terms)
         if self.family == "poly":
@@ -76,6 +79,12 @@ class SimFunction:
 
     def second_derivative_bound(self, box, i, j):
         """max over the box of |d2 f / dx_i dx_j| (an upper bound, cheap and crude)."""
+        if self.xs != 1.0:
+            xs, self.xs = self.xs, 1.0
+            try:
+                return self.second_derivative_bound([(lo / xs, hi / xs) for lo, hi in box], i, j) / (xs * xs)
+            finally:
+                self.xs = xs
         m = [max(abs(lo), abs(hi)) for lo, hi in box]
         if self.family == "multilinear":
             if i == j:
